@@ -137,6 +137,14 @@ class Gen:
             for c in range(ncols):
                 if not nested and rnd.random() < 0.06 and self.budget_left():
                     content = ("blocks", [self.table(nested=True)])
+                elif rnd.random() < 0.05 and self.budget_left():
+                    # several blocks in one cell, followed by plain text
+                    bl = [("list", rnd.choice(("ul", "ol")), [(self.inline(0, False, hi=2), None) for _ in range(rnd.randint(1, 2))], "wiki")
+                          for _ in range(2)]
+                    if rnd.random() < 0.5 and not nested:
+                        bl[1] = self.table(nested=True)
+                    bl.append(("para", [self.inline(0, False, hi=3)]))
+                    content = ("blocks", bl)
                 elif rnd.random() < 0.12 and self.budget_left():
                     content = ("blocks", [("list", rnd.choice(("ul", "ol")),
                                            [(self.inline(0, False, hi=2), None) for _ in range(rnd.randint(1, 3))], "wiki")])
@@ -149,7 +157,7 @@ class Gen:
             rows[r0][c0] = (rows[r0][c0][0], ("inline", self.long_inline()))
         caption = self.inline(0, False, False, 0, 2) if rnd.random() < 0.3 else None
         how = "html" if (rnd.random() < 0.25 and not nested) else "wiki"
-        if how == "html" and any(c[0] == "blocks" and c[1][0][0] == "table" for row in rows for _, c in row):
+        if how == "html" and any(c[0] == "blocks" and any(b[0] == "table" for b in c[1]) for row in rows for _, c in row):
             how = "wiki"
         return ("table", caption, rows, how, rnd.choice(("", "", "", " ", "  ", "\t")))
 
@@ -326,7 +334,7 @@ class Ser:
     def cell(self, c):
         if c[0] == "inline":
             return self.inline(c[1])
-        return "\n".join(self.block(b) for b in c[1])
+        return "\n\n".join(self.block(b) for b in c[1])
 
     def blocks(self, bs):
         out = []
